@@ -53,6 +53,7 @@ def data_work(args):
     core.setup_repo_path()
     from harness.catalogue import struct as _struct
     from okdmr.dmrlib.etsi.layer2.burst import Burst
+    from okdmr.dmrlib.etsi.layer2.elements.burst_types import BurstTypes as BT
 
     def struct(o):
         # indicators (crc_ok ...) say something about how the object was obtained, they are not payload fields
@@ -65,8 +66,9 @@ def data_work(args):
     # carry all-zero and all-one payload octets, so that bursts of different coding families share their information bits
     for k in range(n):
         for kind in kinds:
-            cc = k % 16 if k < 32 else rng.randrange(16)
-            sync = gen.DATA_SYNCS[(k // 16) % 4 if k < 64 else rng.randrange(4)]
+            seq = len(out)                      # colour codes and data SYNC patterns rotate over everything this process builds
+            cc = seq % 16 if seq < 64 else rng.randrange(16)
+            sync = gen.DATA_SYNCS[(seq // 3) % 4 if seq < 200 else rng.randrange(4)]
             rec = {"kind": kind, "cc": cc, "sync": sync, "dt": "", "dtv": 0, "err": "", "nbytes": 0, "bytes": [0] * 17, "payload": [0],
                    "pdt": "", "pcc": -1, "fields_equal": False, "bytes2": [0]}
             try:
@@ -78,7 +80,9 @@ def data_work(args):
                 ba = __import__("bitarray").bitarray(endian="big")
                 ba.frombytes(raw)
                 rec["bytes"] = pack(ba)
-                p = Burst.from_bytes(raw)
+                # a data burst is recognised by its data SYNC pattern whatever burst type the caller announces
+                hint = [BT.DataAndControl, BT.Undefined, BT.Vocoder][len(out) % 3]
+                p = Burst.from_bytes(raw, burst_type=hint)
                 rec["pdt"], rec["pcc"] = p.data_type.name, p.colour_code
                 if typ is None:
                     rec["fields_equal"] = struct(p.data) == struct(pdu)
@@ -212,6 +216,11 @@ def run(ctx):
     data = sum(parts, [])
     voice = sum(vparts, [])
     table = table_rows(rng)
+    # no vacuity: every payload kind was built with every data SYNC pattern, and every colour code occurs
+    combos = {(d["kind"], d["sync"]) for d in data}
+    missing = [(k_, s_) for k_ in KINDS for s_ in gen.DATA_SYNCS if (k_, s_) not in combos]
+    if missing or {d["cc"] for d in data} != set(range(16)):
+        raise core.MachineryError(f"payload kind x data sync x colour code not covered: missing {missing[:4]}")
     for d in data:
         ctx.count(core.digest(d["bytes"]))
     for v in voice:
